@@ -57,6 +57,16 @@ Definition collapse_check (n q r : N) : mres unit :=
 Definition qubit_of (o : order) (n q i : N) : bool :=
   match o with LsqFirst => N.testbit i (n - 1 - q) | MsqFirst => N.testbit i q end.
 
+(* ---------------- shot records ---------------- *)
+(* the record of one shot kept under save_mid_circuit_meas (keys of all_frequencies): the outcomes of the
+   mid-circuit measurements in order of appearance, then the final measurement of qubits 0..n-1
+   (x = little-endian basis index of the final register) *)
+Definition record (n : nat) (ms : list bool) (x : N) : list bool :=
+  ms ++ map (fun q => N.testbit x (N.of_nat q)) (seq 0 n).
+(* the "run all shots at once" branch of target_cirq.py stores one column per cirq measurement key
+   str(i), i = 0 .. n_meas + n - 1, and reads a shot's record off in NUMERIC key order *)
+Definition assemble (meas : nat -> bool) (n_meas n : nat) : list bool := map meas (seq 0 (n_meas + n)).
+
 (* ---------------- programs ---------------- *)
 Section Program.
   Variable G : Type.                       (* unitary gates *)
